@@ -54,14 +54,31 @@ def params(tier):
     return ps
 
 
+def racer_params(tier):
+    """the third post races a cancel call of another thread that matches none of the tracked sources"""
+    ps = []
+    for p in params(tier):
+        third = p["sources"][2]
+        if third["kind"] != "fifo" or third["times"] != 1:
+            continue
+        for op in ("cancel_unknown", "cancel_unused"):
+            ps.append(dict(p, racer={"before": 2, "op": op}))
+    return ps
+
+
+RACER_CODES = timed.CODES + ["ActiveObject.__", "ActiveObject.cancel"]
+
+
 def run(tier):
     res = Result(PID)
     st = explore.explore(C31("line"), params(tier), 2)
+    st.merge(explore.explore(C31("line", codes=RACER_CODES), racer_params(tier), 2))
     ix = None
     if tier != "quick":
         ix = explore.extra(st, explore.hybrid(C31("instr")), [dict(p, bound=2.015, time_horizon=0.5) for p in params(tier)[:4]], 2.015, 900,
                            "first 4 parameter sets at instruction granularity (at most one deviation inside a line)")
-    fill(res, st, 2, "line", "; capacity 2 tracked sources, third source deferred or not, fifo/lifo, one-shot/periodic")
+    fill(res, st, 2, "line", "; capacity 2 tracked sources, third source deferred or not, fifo/lifo, one-shot/periodic; the third post "
+         "also while another thread makes a cancel_event / cancel_events call that matches nothing")
     if ix:
         res.coverage["instruction_extra"] = ix
     res.assumptions = ["capacity reduced through a subclass attribute (QUEUE_SIZE = 2), the documented extension point"]
